@@ -267,16 +267,17 @@ static void tw_case(uint64_t i, void *ctx)
     mc_outcome(i);
 }
 /* ---- copies: by name and through the class table, of a parsed, an edited and an assembled URL: the same components and the same text */
-static void cp_desc(uint64_t i, void *ctx, char *b, size_t n) { static const char *h[3] = { "parse \"http://u:p@www.example.com:8080/p?q\"", "parse \"http://u:p@www.example.com:8080/p?q\", set_host(\"other.org\") and set_port(NULL) without unparse", "spif_url_new(), set_proto(\"ftp\"), set_host(\"h\"), set_path(\"/x\") without unparse" };
+static void cp_desc(uint64_t i, void *ctx, char *b, size_t n) { static const char *h[4] = { "parse \"http://u:p@www.example.com:8080/p?q\"", "parse \"http://u:p@www.example.com:8080/p?q\", set_host(\"other.org\") and set_port(NULL) without unparse", "spif_url_new(), set_proto(\"ftp\"), set_host(\"h\"), set_path(\"/x\") without unparse", "parse \"ftp://u:s3@h/\", set_user(NULL) (a password without a user), set_query(\"q\")" };
     (void) ctx; snprintf(b, n, "%s; %s: components and text of the copy", h[i / 2], i % 2 ? "SPIF_OBJ_DUP() (the class's dup slot, as containers copy a stored value)" : "spif_url_dup()"); }
 static void cp_case(uint64_t i, void *ctx)
 {
     (void) ctx; const char *shape = i % 2 ? "copy through the class table" : "copy by name"; mc_set_shape(shape);
     g_lk = LK_NONE; g_word = "http"; g_lookups = 0;
-    spif_url_t u = i / 2 < 2 ? parse("http://u:p@www.example.com:8080/p?q", 0xA5) : spif_url_new();
+    spif_url_t u = i / 2 < 2 ? parse("http://u:p@www.example.com:8080/p?q", 0xA5) : (i / 2 == 3 ? parse("ftp://u:s3@h/", 0xA5) : spif_url_new());
     if (!u) { FAIL("spif_url_new", "model:return", shape, "returned NULL"); return; }
     if (i / 2 == 1) { spif_url_set_host(u, spif_str_new_from_ptr((spif_charptr_t) "other.org")); spif_url_set_port(u, (spif_str_t) NULL); }
     if (i / 2 == 2) { spif_url_set_proto(u, spif_str_new_from_ptr((spif_charptr_t) "ftp")); spif_url_set_host(u, spif_str_new_from_ptr((spif_charptr_t) "h")); spif_url_set_path(u, spif_str_new_from_ptr((spif_charptr_t) "/x")); }
+    if (i / 2 == 3) { spif_url_set_user(u, (spif_str_t) NULL); spif_url_set_query(u, spif_str_new_from_ptr((spif_charptr_t) "q")); }
     spif_url_t v = i % 2 ? (spif_url_t) SPIF_OBJ_DUP(SPIF_OBJ(u)) : spif_url_dup(u);
     if (!v) FAIL("spif_url_dup", "model:return", shape, "returned NULL");
     else { const char *c1[7], *c2[7]; components(u, c1); components(v, c2);
@@ -306,7 +307,7 @@ int main(int argc, char **argv)
     mc_e2_level("port_without_host", 1, NPH, ph_case, ph_desc, NULL);
     mc_e2_level("long_component", 9000, (uint64_t) NLONGS * 6, lc_case, lc_desc, NULL);
     mc_e2_level("from_str_twin", 1, 2, tw_case, tw_desc, NULL);
-    mc_e2_level("copies", 1, 6, cp_case, cp_desc, NULL);
+    mc_e2_level("copies", 1, 8, cp_case, cp_desc, NULL);
     for (g_len = 0; g_len <= N; g_len++)
         if (!mc_e2_level("strings", g_len, mc_words_of_len(6, g_len) * NLK, str_case, str_desc, NULL)) break;
     return mc_finish();
